@@ -404,12 +404,12 @@ func TestC11(t *testing.T) {
 		RaceIsViolation:    true,
 		HangIsViolationFor: []string{"C11"},
 		Gates: map[string]map[string]int{
-			"quick":    {"scenarios": 600, "exports_at_the_concurrency_bound": 300, "exports_during_shutdown": 100, "interleaving_signatures": 200, "goroutine_scans_after_shutdown": 30},
-			"thorough": {"scenarios": 20000, "exports_at_the_concurrency_bound": 10000, "exports_during_shutdown": 3000, "interleaving_signatures": 399, "goroutine_scans_after_shutdown": 600},
+			"quick":    {"scenarios": 600, "exports_at_the_concurrency_bound": 300, "exports_during_shutdown": 100, "interleaving_signatures": 200, "goroutine_scans_after_shutdown": 30, "cancel_window_points_enumerated": 300},
+			"thorough": {"scenarios": 20000, "exports_at_the_concurrency_bound": 10000, "exports_during_shutdown": 3000, "interleaving_signatures": 399, "goroutine_scans_after_shutdown": 600, "cancel_window_points_enumerated": 5000},
 		},
 	})
 	e := r.Env
-	post := func(c *vc.Case, run *Run, err error) {
+	post := func(c *vc.Case, run *Run, err error, sub ...string) {
 		ix := BuildIndex(run)
 		if err != nil {
 			c.Inconclusive("scenario could not run: " + err.Error())
@@ -427,11 +427,68 @@ func TestC11(t *testing.T) {
 				nt = true
 			}
 		}
+		if len(sub) > 0 {
+			c.SubNT(sub[0]+"|"+scenarioFP(run.Sc, ix), nt)
+			return
+		}
 		c.FP(scenarioFP(run.Sc, ix), fmt.Sprint(run.Sc.Latency))
 		c.Nontrivial(nt)
 	}
+	// a request split over >=3 batches whose exports end together, a delay inside ctx.Err(), and a
+	// cancellation of that request at EVERY distinct virtual instant of the base run (and inside the
+	// delay window after it): export goroutines must never block forever on a departed waiter
+	r.Layer("cancel-window", e.Pick(24, 360), func(c *vc.Case) {
+		max := uint32(2 + c.R.IntN(4))
+		sc := &Scenario{Sig: Signal(c.R.IntN(3)), HookSeed: c.R.Uint64(), CtxHooks: true, Shutdown: c.R.IntN(2)}
+		sc.Cfg = Cfg{SendBatchSize: max, SendBatchMaxSize: max, Timeout: pickD(c.R, 0, time.Second), MaxConcurrency: []uint32{0, 0, 4}[c.R.IntN(3)]}
+		nb := 3 + c.R.IntN(2)
+		big := &ReqSpec{Caller: 0, Req: 0, At: 0, CtxGroup: -1, CancelAt: -1, Deadline: -1, Res: genShape(c.R, sc.Sig, int(max)*nb)}
+		other := &ReqSpec{Caller: 1, Req: 0, At: pickD(c.R, 0, time.Millisecond), CtxGroup: -1, CancelAt: -1, Deadline: -1, Res: genShape(c.R, sc.Sig, 1+c.R.IntN(int(max)))}
+		sc.Reqs = []*ReqSpec{big, other}
+		lat := pickD(c.R, time.Millisecond, 10*time.Millisecond)
+		sc.Latency = []time.Duration{lat}
+		d := pickD(c.R, time.Microsecond, time.Millisecond)
+		sc.HookDelays = map[string][]time.Duration{"ctx.Err": {d}}
+		sc.Label = "cancel-window-base"
+		seed := c.R.Uint64()
+		base := NewRun(sc, seed)
+		var err error
+		runBubble(t, func() { _, err = base.Exec() })
+		post(c, base, err, "cancel-window-base")
+		if err != nil {
+			return
+		}
+		inst := map[time.Duration]bool{}
+		for _, ev := range base.log {
+			if ev.Kind != "hook" {
+				inst[ev.VT] = true
+				inst[ev.VT+time.Nanosecond] = true
+				inst[ev.VT+d/2] = true
+			}
+		}
+		var ts []time.Duration
+		for x := range inst {
+			ts = append(ts, x)
+		}
+		sort.Slice(ts, func(i, j int) bool { return ts[i] < ts[j] })
+		if len(ts) > 36 {
+			ts = ts[:36]
+		}
+		for _, at := range ts {
+			sc2 := *sc
+			b2, o2 := *big, *other
+			b2.CancelAt = at
+			sc2.Reqs = []*ReqSpec{&b2, &o2}
+			sc2.Label = fmt.Sprintf("cancel-window@%v", at)
+			run := NewRun(&sc2, seed)
+			runBubble(t, func() { _, err = run.Exec() })
+			post(c, run, err, sc2.Label)
+			c.Count("cancel_window_points_enumerated", 1)
+		}
+		c.Sample(map[string]any{"layer": "cancel-window", "batches_of_the_split_request": nb, "ctx_err_delay": d.String(), "cancel_instants": fmt.Sprint(ts), "base": sc.Describe()})
+	})
 	r.Layer("bubble", e.Pick(600, 20000), func(c *vc.Case) {
-		sc := GenScenario(c.R, Profile{Sig: -1, Keys: c.R.IntN(3) == 0, Cancels: c.R.IntN(2) == 0, Fails: true, HookMode: "all", EarlyReturn: -1, MaxCallers: 8})
+		sc := GenScenario(c.R, Profile{Sig: -1, Keys: c.R.IntN(3) == 0, Cancels: c.R.IntN(2) == 0, Fails: true, HookMode: "all", EarlyReturn: -1, MaxCallers: 8, CtxHooks: true})
 		if c.R.IntN(2) == 0 && sc.Cfg.MaxConcurrency == 0 {
 			sc.Cfg.MaxConcurrency = uint32(1 + c.R.IntN(3))
 		}
